@@ -31,7 +31,7 @@ func init() {
 			"independent ECEF conversion (a=6378137, 1/f=298.257223563); tolerance 1e-4 relative absorbs the library's use of latitude as ellipsoidal height (<= 85 m)"},
 		N:       tierN(20_000, 600_000),
 		Batch:   func(t string) int64 { return tierN(20_000, 600_000)(t)/32 + 1 },
-		Timeout: func(t string) int { return map[string]int{"quick": 300, "thorough": 2400}[t] },
+		Timeout: func(t string) int { return map[string]int{"quick": 900, "thorough": 3000}[t] },
 		Floor:   tierN(50, 1000),
 		Run:     runC14,
 	})
